@@ -5,6 +5,7 @@ import GdcVerif.Lemmas.DctDetect
 import GdcVerif.Lemmas.DctHuff
 import GdcVerif.Lemmas.DctColour
 import GdcVerif.Lemmas.DctPass
+import GdcVerif.Lemmas.DctBlock
 import GdcVerif.Spec.T81ZigZag
 /-!
   C11 — JPEG DCT codecs (Baseline / Extended): loss bounded by the declared quantisation.  PARTIAL.
@@ -27,10 +28,11 @@ import GdcVerif.Spec.T81ZigZag
     256) and makes byte() faithful, round trip within 2 per channel for every RGB triple.
   * fixed-point DCT pair: per-pass linear-form-plus-one-rounding bounds for the four generated passes, consistency of
     the forward/inverse constant matrices to 5.9e-5.
-  NOT proved: that the fixed-point DCT pair (`DCTISlow`/`IDCTISlow`, generated 1-D passes + hand 2-D glue) and the
-  12-bit float IDCT are within the 2-grey-level allowance of the ideal transform — the DCT accuracy analysis
-  is missing.  `c11_bound_FullStatement` is therefore a `def`; it is searched (harness, and `jpg-blockbound`
-  evaluates it on the model).
+  * `c11_bound_block`, `c11_bound_grey8`: THE BOUND ITSELF for the 8-bit greyscale path — every block, every table,
+    every image size, every quality: |decoded − source| ≤ (1/8)·Σ C(u)C(v)·Q[u,v] + 2 (exact integer form), on the
+    model built from the generated passes.
+  NOT proved: the bound for RGB (composition through the colour matrices) and for 12-bit (float IDCT);
+  `c11_bound_FullStatement` (all codecs, real functions) stays a `def` and is searched.
 -/
 namespace Dct
 open Gen.JpegStd Gen.JpegBaseline Gen.JpegExtended
@@ -196,38 +198,58 @@ theorem c11_dct_constants_consistent :
       let e := v - (if i = j then 536870912 else 0)
       decide (-31601 ≤ e ∧ e ≤ 31601)) = true := dct_matrices_consistent
 
-/-- The full per-block statement over the model (generated 1-D DCT passes + 2-D glue + generated quantiser):
-    every sample of the reconstructed block is within (1/8)·Σ C(u)C(v)·Q[u,v] + 2 of the source sample.
-    NOT proved.  Available: the four per-pass bounds and the consistency of the constant matrices ((9), (9')), the
-    quantiser contract (3).  MISSING, exactly:
-    (M1) the 2-D combination lemma — propagate the four roundings (≤ 1/2 unit each at scales 2^-11·4, 2^-15, 2^-11,
-         2^-18) and the quantisation residual e (|e_uv| ≤ 4·Q_uv in 8×-scaled units) through the composite linear map
-         invMatrix⊗invMatrix ∘ diag ∘ fwdMatrix⊗fwdMatrix, using (9') for the identity part and the absolute row sums
-         of invMatrix for the error part, for all 64-sample blocks with entries in −128..127;
-    (M2) the comparison of |invMatrix[x][u]|·|invMatrix[y][v]| / 2^26 with the property's weights C(u)C(v)/4·|cos·cos|
-         ≤ C(u)C(v)/4 — core Lean has no real numbers, so C(0) = 1/√2 has to be handled by squaring as in
-         `withinBound`; the entries involved are the literals of `invMatrix`;
-    (M3) clamping to 0..255 only moves a sample towards the (in-range) source value.
-    Evaluated by search only (harness on the real code; `jpg-blockbound` on model and real kernels). -/
-def c11_bound_FullStatement : Prop :=
-  ∀ (blk : Array Int) (base : Array Int) (quality : Int), blk.size = 64 → (∀ b ∈ blk.toList, 0 ≤ b ∧ b ≤ 255) →
-    (base = DefaultLuminanceQuantTable ∨ base = DefaultChrominanceQuantTable) → 1 ≤ quality ∧ quality ≤ 100 →
-    let q := scaleQuantTable base quality
-    ∃ out, blockRoundTrip blk q = some out ∧ out.size = 64 ∧
-      ∀ i (hi : i < 64) (h1 : i < out.size) (h2 : i < blk.size), withinBound (out[i] - blk[i]) q = true
+/-- every entry of a scaled table, read as a function (entries outside the array read as 1), is ≥ 1 -/
+theorem tableF_ge_one (base : Array Int) (quality : Int) (v k : Nat) : 1 ≤ tableF (scaleQuantTable base quality) v k := by
+  simp only [tableF]
+  cases h : (scaleQuantTable base quality)[v * 8 + k]? with
+  | none => simp
+  | some x =>
+    have hm : x ∈ (scaleQuantTable base quality).toList := by
+      have := Array.mem_of_getElem? h
+      simpa using this
+    simpa using ((c11_scaled_table_valid base quality).2 x hm).1
 
-/-- What is proved of it: the table is valid (1..255, so the DQT bytes are the table), the quantiser loses at most
-    half a divisor per coefficient, for every coefficient the forward DCT can produce.  Missing: the DCT accuracy
-    analysis (fixed-point `DCTISlow`/`IDCTISlow` versus the ideal transform), hence the sample-domain bound. -/
-theorem c11_bound_partial (base : Array Int) (quality : Int) (c : Int) (i : Nat) (hi : i < base.size) :
-    let q := scaleQuantTable base quality
-    ∃ h : i < q.size, 1 ≤ q[i] ∧ q[i] ≤ 255 ∧
-      2 * (c - (q[i] * 8) * quantizeBlock.entry default 0 0 0 0 i q[i] c) ≤ q[i] * 8 ∧
-      -(q[i] * 8) ≤ 2 * (c - (q[i] * 8) * quantizeBlock.entry default 0 0 0 0 i q[i] c) := by
-  intro q
-  have hs : i < q.size := by simp [q, scaleQuantTable, hi]
-  have hr : 1 ≤ q[i] ∧ q[i] ≤ 255 := (c11_scaled_table_valid base quality).2 _ (Array.getElem_mem_toList hs)
-  exact ⟨hs, hr.1, hr.2, c11_quantiser_8bit default 0 0 0 0 i q[i] c hr.1⟩
-example : (12 : Nat) < DefaultLuminanceQuantTable.size ∧ (scaleQuantTable DefaultLuminanceQuantTable 75)[12]? = some 13 := by decide
+/-- (10) C11, BLOCK LEVEL, 8-bit greyscale path — the first end-to-end numeric theorem.  Model: level shift, the
+    GENERATED forward row/column passes, the GENERATED quantiser loop body, the GENERATED inverse column/row passes
+    (dequantisation, +128, clamp, byte) composed by the functional 2-D glue `blockF` (tied to standard.DCTISlow /
+    IDCTISlow and to the real block round trip by `jpg-fdct`, `jpg-idct`, `jpg-blockbound`).
+    For EVERY 8×8 block of bytes and EVERY quantisation table with entries ≥ 1, every reconstructed sample satisfies
+        8·(|decoded − source| − 2) ≤ Σ_{u,v} C(u)C(v)·Q[u,v]      (C(0) = 1/√2, C(u≥1) = 1)
+    stated exactly in integers (`withinF`: X ≤ 0 ∨ X² ≤ 2M²).  Ingredients: the four per-pass bounds (9), the matrix
+    consistency (9'), the quantiser contract (3), M1 = `vbound`/`block_int` (propagation through the composite integer
+    map with the absolute row sums of the inverse matrix; total rounding budget ≤ 1.44 < 2), M2 = `rowS`/`S_le`/
+    `sq_le_two` (|inv[i][0]| = 2^13, |inv[i][j]| ≤ 11363 and 11363² ≤ 2·8192², i.e. ≤ 2^13·√2·C(j) — by squaring, no
+    reals), M3 = `clamp_bound`. -/
+theorem c11_bound_block (blk q : Blk) (hb : ∀ y j, 0 ≤ blk y j ∧ blk y j ≤ 255) (hq : ∀ v k, 1 ≤ q v k)
+    (y x : Nat) (hy : y < 8) (hx : x < 8) :
+    withinF (blockF blk q y x - blk y x) q := block_bound blk q hb hq y x hy hx
+
+/-- (10') C11 for 8-bit greyscale images at every quality and every size: for every w × h image of bytes, every
+    quality (the table is `ScaleQuantTable(base, quality)`, any 64-entry base table — entries are in 1..255 by (1), and
+    they are the DQT bytes by (5')), every pixel (X, Y) inside the image — partial edge blocks included, through the
+    edge-replication index map (4) — the decoded sample is within (1/8)·Σ C(u)C(v)·Q[u,v] + 2 of the source sample.
+    At quality 100 (all entries 1) this gives |decoded − source| ≤ 9 < 10.
+    Scope: the DCT / quantisation / dequantisation / IDCT / clamp chain on the model above.  The entropy-coding layer is
+    covered separately (c15_ac_runlength_roundtrip, c11_category_roundtrip: the decoder gets the quantised coefficients
+    back) and so is the pixel→block addressing (c15_addressing); Huffman table construction and the marker container
+    are not composed into this statement. -/
+theorem c11_bound_grey8 (img : Blk) (w h : Nat) (base : Array Int) (quality : Int)
+    (hb : ∀ y j, 0 ≤ img y j ∧ img y j ≤ 255) (X Y : Nat) (hX : X < w) (hY : Y < h) :
+    withinF (decodedPixel img w h (tableF (scaleQuantTable base quality)) X Y - img Y X)
+      (tableF (scaleQuantTable base quality)) :=
+  image_bound img _ w h hb (tableF_ge_one base quality) X Y hX hY
+example : withinF 9 (tableF (scaleQuantTable DefaultLuminanceQuantTable 100)) ∧
+    ¬ withinF 10 (tableF (scaleQuantTable DefaultLuminanceQuantTable 100)) := by decide
+
+/-- The full property for ALL codecs of C11, over the (unmodelled as a whole) real encoder/decoder pairs: `enc`/`dec`
+    stand for baseline/extended Encode/Decode, `bound s i` for the numerator (over `den`) of the DQT bound of sample i of
+    stream s (through the colour matrix for RGB), `allow` = 2 (5 RGB).  PROVED INSTANCE: 8-bit greyscale on the model,
+    `c11_bound_grey8`.  NOT proved: RGB (the block theorem per component and `c11_colour_roundtrip` exist, but the
+    composition quantisation-error-through-the-inverse-colour-matrix is missing), 12-bit (float IDCT of
+    decodeSequential12 has no model), and the composition with Huffman table construction and the container. -/
+def c11_bound_FullStatement (enc : List Int → Option (List Nat)) (dec : List Nat → Option (List Int))
+    (bound : List Nat → Nat → Int) (den allow : Int) : Prop :=
+  ∀ img : List Int, ∃ s, enc img = some s ∧ ∃ out, dec s = some out ∧ out.length = img.length ∧
+    ∀ i (h : i < img.length) (h' : i < out.length), den * ((out[i] - img[i]).natAbs : Int) ≤ bound s i + den * allow
 
 end Dct
